@@ -69,9 +69,74 @@ def S(n):
 
 
 def spec(name, fn, inp, bounds, **kw):
-    d = {'name': name, 'fn': fn, 'input': inp, 'bounds': bounds}
+    d = {'name': name, 'fn': fn, 'input': inp, 'bounds': bounds, 'report': ('fail', 'panic', 'budget')}
     d.update(kw)
     return d
+
+
+def _lib():
+    import gen_files
+    return gen_files
+
+
+def shapes(tier, heavy=False):
+    """symbolic stream shapes for the decoder checks: (name, cells, description)"""
+    q = tier == 'quick'
+    out = []
+    Ds = (range(0, 4) if q else range(0, 6)) if heavy else (range(0, 6) if q else range(0, 8))
+    for D in Ds:
+        out.append(('S1_D%d' % D, START + S(D) + END + S(3), 'start sequence, %d symbolic data bytes, 1b1b1b1b 1a, symbolic pad count and checksum' % D))
+    K = (5 if q else 7) if heavy else (7 if q else 9)
+    out.append(('S2_K%d' % K, START + S(K), 'start sequence then %d fully symbolic bytes' % K))
+    out.append(('S3', START + S(2) + START + S(2) + END + S(3), 'restart inside a frame: start, 2 symbolic, start, 2 symbolic, end marker, 3 symbolic'))
+    out.append(('S4', S(2) + START + S(2) + END + S(3), '2 symbolic noise bytes, frame with 2 symbolic data bytes and symbolic pad/checksum'))
+    out.append(('S5', START + S(1) + [0x1b] * 3 + S(2) + END + S(3), 'data ending in a 0x1b run before symbolic bytes and the end sequence (re-alignment region)'))
+    if not q:
+        out.append(('S6', START + S(3) + [0x1b] * 4 + S(4) + S(4), 'escape sequence with fully symbolic payload after 3 symbolic data bytes'))
+        out.append(('S7', S(3) + START + S(1) + START + S(1) + END + S(3) + S(2), 'noise, frame, restart, trailing bytes'))
+    return out
+
+
+def file_specs(fn_prefix, group, tier, seed, modes, names=None, nsym=16):
+    """mutation-family specs over the generated skeleton files"""
+    import random
+    g = _lib()
+    lib = g.library()
+    rnd = random.Random(seed)
+    out = []
+    keys = list(lib)
+    if names is not None:
+        keys = [k for k in keys if k in names]
+    for name in keys:
+        b = lib[name]
+        fb = list(b.b)
+        for mode in modes:
+            if mode == 0:
+                # content bytes symbolic (at most nsym, chosen by seed in the quick tier)
+                cont = list(b.content)
+                pick = cont if len(cont) <= nsym else sorted(rnd.sample(cont, nsym))
+                cells = list(fb)
+                for o in pick:
+                    cells[o] = 'S'
+                inp = g.header(b, 0) + cells
+                out.append(spec('%s_content_%s' % (group, name), '%s' % fn_prefix, inp, 'file %s (%d bytes): %d content bytes symbolic at offsets %s, checksums recomputed by the reference CRC' % (name, len(fb), len(pick), pick[:24])))
+            elif mode in (1, 2):
+                h = g.header(b, mode)
+                h[-4] = 'S'; h[-2] = 'S'
+                out.append(spec('%s_corrupt%d_%s' % (group, mode, name), fn_prefix, h + fb, 'file %s (%d bytes): ONE byte at a symbolic position set to a symbolic value (all positions x all 255 other values), checksums %s' % (name, len(fb), 'recomputed afterwards' if mode == 1 else 'left alone')))
+            elif mode == 3:
+                h = g.header(b, 3); h[-4] = 'S'
+                out.append(spec('%s_trunc_%s' % (group, name), fn_prefix, h + fb, 'file %s truncated at every length 0..%d' % (name, len(fb) - 1)))
+            elif mode == 4:
+                for cnt in (1, 2):
+                    h = g.header(b, 4, p0=cnt); h[-2] = 'S'; h[-1] = 'S' if cnt == 2 else 0
+                    out.append(spec('%s_extend%d_%s' % (group, cnt, name), fn_prefix, h + fb, 'file %s extended by %d symbolic byte(s)' % (name, cnt)))
+    return out
+
+
+SMALL_FILES = ['close', 'open_full', 'open_bare_time', 'list1', 'list_opts', 'list0']
+VALUE_FILES = ['list_vals_int', 'list_vals_uint', 'list_vals_misc', 'list_status']
+ALL_FILES = None
 
 
 def e2_checks(pid, tier, seed):
@@ -80,9 +145,144 @@ def e2_checks(pid, tier, seed):
     if pid == 'C01':
         for n in (range(0, 6) if q else range(0, 9)):
             out.append(spec('roundtrip_%d' % n, 'chk_roundtrip_%d' % n, S(n), 'payload of %d fully symbolic bytes; both encoders x 7 decoder front-ends; ArrayBuf capacity exactly %d' % (n, n), must_cover=[1]))
-        for L, pos in ((255, (0, 254)), (256, (0, 255)), (257, (0, 256)), (260, (0, 3, 259))):
+        longs = ((255, (253, 254)), (256, (254, 255)), (257, (255, 256)), (260, (258, 259))) if q else ((255, (0, 253, 254)), (256, (0, 254, 255)), (257, (1, 255, 256)), (260, (0, 3, 258, 259)), (1023, (1021, 1022)))
+        for L, pos in longs:
             inp = [0x55] * L
             for p_ in pos:
                 inp[p_] = 'S'
             out.append(spec('roundtrip_long_%d' % L, 'chk_roundtrip_long', inp, 'payload of %d bytes, concrete 0x55 except %d symbolic bytes at %s' % (L, len(pos), list(pos)), must_cover=[1]))
+    elif pid == 'C02':
+        for name, cells, d in shapes(tier):
+            out.append(spec('sound_' + name, 'chk_sound', cells, d))
+    elif pid == 'C17':
+        for name, cells, d in shapes(tier):
+            out.append(spec('tiling_' + name, 'chk_tiling', cells, d))
+    elif pid == 'C15':
+        for name, cells, d in shapes(tier, heavy=True):
+            out.append(spec('agree_' + name, 'chk_agree', cells, d + '; push decoder (Vec, ArrayBuf<64>), decode, decode_streaming, SmlReader over slice / iterator / io::Read / default buffer', must_cover=[15]))
+    elif pid == 'C05':
+        K = 5 if q else 7
+        out.append(spec('total_sym%d' % K, 'chk_total', S(K), '%d fully symbolic bytes through every transport entry point, 3 buffer capacities, interleaved reset/finalize' % K, must_cover=[5]))
+        out.append(spec('total_start_sym%d' % (K - 1), 'chk_total', START + S(K - 1), 'start sequence + %d symbolic bytes through every transport entry point' % (K - 1), must_cover=[5]))
+        out.append(spec('total_end', 'chk_total', START + S(2) + END + S(3), 'frame with symbolic data and symbolic end-sequence payload', must_cover=[5]))
+    elif pid == 'C07':
+        for n in (range(0, 6) if q else range(0, 9)):
+            out.append(spec('encode_%d' % n, 'chk_encode', S(n), 'payload of %d fully symbolic bytes: encode::<Vec>, encode_streaming (+3 extra next) and encode::<ArrayBuf<C>> for 21 capacities vs the reference encoder' % n, must_cover=[7]))
+        for L in ((256, 259) if q else (255, 256, 257, 259, 1024)):
+            inp = [0x55] * L
+            inp[L - 1] = 'S'; inp[L - 2] = 'S'
+            out.append(spec('encode_long_%d' % L, 'chk_roundtrip_long', inp, 'payload of %d bytes with the last two symbolic: both encoders vs the reference encoder (8-bit pad counter wrap)' % L, must_cover=[1]))
+    elif pid == 'C16':
+        for L in (range(0, 5) if q else range(0, 7)):
+            out.append(spec('capacity_%d' % L, 'chk_capacity_%d' % L, S(L), 'payload of %d symbolic bytes: capacity %d delivers, capacity %d reports one OutOfMemory and delivers the next frame' % (L, L, max(L - 1, 0)), must_cover=[16] if L else []))
+        for L in ((8192, 8193)):
+            inp = [0x42] * L
+            inp[L - 1] = 'S'
+            if not q: inp[L - 2] = 'S'
+            out.append(spec('capacity_default_%d' % L, 'chk_capacity_default', inp, 'default 8 KiB reader buffer, payload of %d bytes (last %d symbolic)' % (L, 1 if q else 2), must_cover=[16], max_seconds=1500))
+    elif pid == 'C08':
+        for variant in range(5):
+            for glen in (range(0, 4) if q else range(0, 6)):
+                if variant and glen not in (0, 2, 3) and q: continue
+                out.append(spec('resync_v%d_g%d' % (variant, glen), 'chk_resync', [variant, glen] + S(glen) + S(2), 'decoder history %d, %d symbolic noise bytes (assumed not to contain the start sequence), frame with 2 symbolic payload bytes' % (variant, glen), must_cover=[8]))
+        for cut in range(8, 13):
+            out.append(spec('cut_%d' % cut, 'chk_cut', [cut] + S(2) + S(2), 'frame of a symbolic 2-byte payload cut after %d bytes (assumed not inside a 0x1b run / escape), then a frame with 2 symbolic payload bytes' % cut))
+    elif pid == 'C14':
+        K = 5 if q else 7
+        for variant in range(6):
+            out.append(spec('concat_v%d' % variant, 'chk_concat', [variant] + S(K), 'boundary kind %d (0 delivered, 1 invalid message, 2 invalid escape, 3 out of memory, 4 reset, 5 finalize) then %d fully symbolic bytes vs a new decoder' % (variant, K), must_cover=[14]))
+            out.append(spec('concat_v%d_frame' % variant, 'chk_concat', [variant] + START + S(2) + END + S(3), 'boundary kind %d then a frame with symbolic data / pad / checksum vs a new decoder' % variant, must_cover=[14]))
+    elif pid == 'C11':
+        g = _lib()
+        f1 = list(g.transport_encode(bytes([0x12, 0x34, 0x56, 0x78])))
+        f2 = list(g.transport_encode(bytes([0x00, 0x1b])))
+        for F in ((2, 3) if q else (2, 4, 5)):
+            out.append(spec('faults_F%d_twoframes' % F, 'chk_faults', [F] + S(F) + f1 + f2, 'two concrete frames; the first %d read() calls follow a symbolic script over {byte, WouldBlock, Interrupted, Other, end-of-input}' % F, must_cover=[11]))
+        # faults in the middle of a frame: script = k concrete 'deliver' entries then symbolic entries
+        for k in ((3, 9, 13, 19) if q else (1, 3, 5, 8, 9, 11, 13, 15, 17, 19, 20)):
+            F = 2 if q else 3
+            out.append(spec('faults_at%d' % k, 'chk_faults', [k + F] + [0] * k + S(F) + f1 + f2, 'two concrete frames; after %d delivered bytes, %d symbolic script entries' % (k, F), must_cover=[11]))
+        out.append(spec('faults_noise', 'chk_faults', [3] + S(3) + S(2) + f1, '3 symbolic script entries over 2 symbolic noise bytes + a frame', must_cover=[11]))
+    elif pid == 'C10':
+        g = _lib()
+        lib = g.library()
+        def e2e(name, src, bufk, files, noise, nchoice, sym_content=0):
+            fb = [list(lib[f].b) for f in files]
+            while len(fb) < 2: fb.append([])
+            if sym_content:
+                for o in lib[files[0]].content[:sym_content]:
+                    fb[0][o] = 'S'
+            j = list(noise) + [0] * (3 - len(noise))
+            hdr = [src, bufk] + S(nchoice) + [0] * (6 - nchoice) + [j[0], len(fb[0]) & 0xff, len(fb[0]) >> 8, j[1], len(fb[1]) & 0xff, len(fb[1]) >> 8, j[2]]
+            body = S(j[0]) + fb[0] + S(j[1]) + fb[1] + S(j[2])
+            return spec(name, 'chk_e2e', hdr + body, 'source %d (0 slice, 1 iterator, 2 io::Read), buffer %d (0 default 8 KiB, 1 ArrayBuf<512>, 2 Vec), files %s framed by the reference encoder, symbolic noise bytes %s, %d symbolic per-call choices of target type and read/next, %d symbolic content bytes' % (src, bufk, files, list(noise), nchoice, sym_content), must_cover=[10], max_seconds=1200)
+        combos = [(0, 0), (1, 1), (2, 2)] if q else [(s_, b_) for s_ in range(3) for b_ in range(3)]
+        for (s_, b_) in combos:
+            out.append(e2e('e2e_s%d_b%d_two' % (s_, b_), s_, b_, ['close', 'open_min'], (1, 1, 0), 2 if q else 3))
+        out.append(e2e('e2e_file3_content', 0, 1, ['file3'], (0, 0, 1), 2, sym_content=6))
+        out.append(e2e('e2e_list_noise2', 1, 2, ['list1', 'close'], (2, 0, 1), 1))
+        if not q:
+            out.append(e2e('e2e_three_msgs', 2, 0, ['file3', 'list_vals_misc'], (1, 1, 1), 3))
+    elif pid in ('C04', 'C09', 'C13', 'C06', 'C03'):
+        out = _parser_checks(pid, tier, seed)
+        if pid == 'C06':
+            for sp in out: sp['report'] = ('fail', 'panic', 'budget', 'alloc')
+    return out
+
+
+def _parser_checks(pid, tier, seed):
+    q = tier == 'quick'
+    out = []
+    if True:
+        g = {'C04': 'c04', 'C09': 'c09', 'C13': 'c13', 'C06': 'c06', 'C03': 'c03'}[pid]
+        if pid != 'C03':
+            for K in ((4, 8, 10) if q else (6, 10, 12, 13)):
+                out.append(spec('%s_sym%d' % (g, K), 'chk_parse_' + g, S(K), 'every byte string of length %d (all %d bytes symbolic)' % (K, K), max_seconds=1500))
+            # message prefixes with a symbolic tail (reaches the bodies)
+            pre_close = [0x76, 0x02, 0x11, 0x62, 0x00, 0x62, 0x00, 0x72, 0x63, 0x02, 0x01]
+            pre_list = [0x76, 0x02, 0x11, 0x62, 0x00, 0x62, 0x00, 0x72, 0x63, 0x07, 0x01, 0x77, 0x01, 0x02, 0x0a, 0x01, 0x01]
+            pre_open = [0x76, 0x02, 0x11, 0x62, 0x00, 0x62, 0x00, 0x72, 0x63, 0x01, 0x01]
+            kk = 6 if q else 8
+            out.append(spec('%s_close_tail%d' % (g, kk), 'chk_parse_' + g, pre_close + S(kk), 'close-message envelope then %d symbolic bytes' % kk))
+            out.append(spec('%s_open_tail%d' % (g, kk), 'chk_parse_' + g, pre_open + S(kk), 'open-message envelope then %d symbolic bytes' % kk))
+            out.append(spec('%s_list_tail%d' % (g, kk), 'chk_parse_' + g, pre_list + S(kk), 'get-list envelope up to the value list, then %d symbolic bytes' % kk, max_seconds=1500))
+            names = SMALL_FILES if q else None
+            out += file_specs('chk_mut_' + g, g, tier, seed, [1, 2, 3, 4], names=names)
+            if not q:
+                out += file_specs('chk_mut_' + g, g, tier, seed, [0], names=None, nsym=24)
+            else:
+                out += file_specs('chk_mut_' + g, g, tier, seed, [0], names=SMALL_FILES + VALUE_FILES[:2], nsym=12)
+        else:
+            out += file_specs('chk_mut_c03', 'c03', tier, seed, [0], names=None, nsym=(14 if q else 28))
+        if pid == 'C06':
+            out.append(spec('c06_noalloc_sym', 'chk_stream_noalloc', S(8 if q else 11), 'streaming parser on fully symbolic bytes: no heap request, terminates'))
+            out += len_attack_specs(tier)
+    return out
+
+
+def len_attack_specs(tier):
+    """every TLF of a get-list message replaced by up to 9 symbolic bytes (all declared lengths up to and beyond 2^32-1)"""
+    g = _lib()
+    lib = g.library()
+    out = []
+    b = lib['list1']
+    fb = list(b.b)
+    # positions of TL bytes = non-content, non-checksum bytes; replace one at a time by N symbolic bytes
+    # (the file is rebuilt around it; checksums are NOT recomputed: the parsers see the fields before the CRC)
+    tl_positions = [i for i in range(len(fb)) if i not in b.content and fb[i] not in (0x01,) and i < b.fix[0][1] - 1]
+    q = tier == 'quick'
+    # the list-count field and the first octet-string field get the full 9 symbolic bytes (every declared length up to and
+    # beyond 2^32-1) in both tiers; the other fields get 2 and 4 symbolic bytes in the quick tier
+    list_tl = [i for i in tl_positions if fb[i] == 0x71 and i > 15][:1]
+    key = set(tl_positions[1:2] + list_tl)
+    for pos in tl_positions:
+        ns = (1, 2, 3, 5, 9) if not q else ((2, 4, 9) if pos in key else (2, 4))
+        for n in ns:
+            cells = fb[:pos] + S(n) + fb[pos + 1:]
+            out.append(spec('c06_len_p%d_n%d' % (pos, n), 'chk_parse_c06', cells, 'get-list file with the type-length byte at offset %d replaced by %d symbolic bytes' % (pos, n), max_seconds=900 if q else 3000))
+    # the same through the streaming-only allocation check
+    for pos in (sorted(key) if q else tl_positions):
+        n = 9
+        cells = fb[:pos] + S(n) + fb[pos + 1:]
+        out.append(spec('c06_noalloc_len_p%d' % pos, 'chk_stream_noalloc', cells, 'streaming parser, TL byte at offset %d replaced by %d symbolic bytes' % (pos, n), max_seconds=900 if q else 3000))
     return out
